@@ -256,6 +256,10 @@ func renderGo(c *filter.Condition) (string, error) {
 // ---------- vocabulary ----------
 
 var fNames = []string{"x", "", "AND", "a b", "é"}
+
+// names for generated ASTs: also digit-leading, all-digit, underscore, keyword-like and punctuated
+// names (what the printer must quote and what it may print bare)
+var fNamesSyntax = []string{"x", "", "AND", "a b", "é", "1a", "9", "a1", "_x", "x_1", "hasPrefix", "attributes", "NOT", "OR", "a-b", "a.b", "A9_", "0"}
 var fVals = []string{"", "a", "ab", "\"q\\", "NOT"}
 
 func attrMaps(names, vals []string) []map[string]string {
@@ -321,7 +325,7 @@ func randCond(r *rand.Rand, depth int) *fCond {
 		if depth > 0 && r.Intn(3) == 0 {
 			t.sub = randCond(r, depth-1)
 		} else {
-			t.basic = &fBasic{kind: []string{"has", "eq", "ne", "prefix"}[r.Intn(4)], name: fNames[r.Intn(len(fNames))], val: fVals[r.Intn(len(fVals))]}
+			t.basic = &fBasic{kind: []string{"has", "eq", "ne", "prefix"}[r.Intn(4)], name: fNamesSyntax[r.Intn(len(fNamesSyntax))], val: fVals[r.Intn(len(fVals))]}
 		}
 		c.terms = append(c.terms, t)
 	}
@@ -505,6 +509,35 @@ func TestC07(t *testing.T) {
 		st.Distinct(cse.c.show())
 		if i%997 == 0 {
 			st.Sample(map[string]string{"filter": cse.text, "ast": cse.c.show()})
+		}
+	}
+	// ---- delivery level: publish and dead-letter routing use the same evaluation on the message's attributes ----
+	{
+		cfgOf := func(f string) *SubCfg { return &SubCfg{Topic: "t", Filter: f, TTL: 24 * 3600 * Sec, MTTL: 3600 * Sec} }
+		filters := []string{`attributes:x`, `NOT attributes:x`, `-attributes:x`, `attributes.x != "a"`, `NOT attributes.x = "a" OR attributes:y`,
+			`hasPrefix(attributes.x, "a")`, `NOT hasPrefix(attributes.x, "a")`, `attributes:x OR attributes:y OR attributes:z`, `attributes:x AND attributes:y AND attributes:z`, ``}
+		ops := []Op{{K: "create_topic", Topic: "t"}, {K: "create_topic", Topic: "d"}}
+		for i, f := range filters {
+			ops = append(ops, Op{K: "create_sub", Sub: fmt.Sprintf("f%d", i), Cfg: cfgOf(f)})
+		}
+		// a dead-letter source whose forwards are routed through the same filters (dead-letter topic = t)
+		ops = append(ops, Op{K: "create_sub", Sub: "src", Cfg: &SubCfg{Topic: "d", MaxAtt: 1, DLT: "t", TTL: 24 * 3600 * Sec, MTTL: 3600 * Sec}})
+		attrs := []map[string]string{nil, {}, {"x": "a"}, {"x": "ab"}, {"x": "b"}, {"y": "1"}, {"z": ""}, {"x": "a", "y": "", "z": "q"}, {"y": "a", "z": "a"}}
+		var dmsgs []MsgSpec
+		for i, a := range attrs {
+			ops = append(ops, Op{K: "publish", Topic: "t", Msgs: []MsgSpec{{N: i, Attrs: a}}})
+			dmsgs = append(dmsgs, MsgSpec{N: 100 + i, Attrs: a})
+		}
+		ops = append(ops, Op{K: "publish", Topic: "d", Msgs: dmsgs}, Op{K: "pull", Sub: "src", Max: 100}, Op{K: "advance", D: 700 * Sec},
+			Op{K: "dl_sweep", Max: 100})
+		h := RunHistory(t, Seed(), nil, ops, 0, false)
+		st.Count("delivery_level_publishes", len(attrs)*2)
+		for _, f := range h.Findings {
+			if (f.Prop == "C01" && f.Sig == "enqueue") || (f.Prop == "C02" && (f.Sig == "filter" || f.Sig == "forward-filter")) || (f.Prop == "C06" && (f.Sig == "forward-missing" || f.Sig == "forward-filter")) || f.Prop == "C07" {
+				p := writeReplay(fmt.Sprintf("C07-delivery-%d.json", Seed()), replayFile{Property: "C07", Sig: "delivery", Seed: Seed(), Ops: ops, What: f.What})
+				st.Violate(Violation{What: "[delivery] publish / dead-letter routing does not follow the filter semantics: " + f.What, Replay: p, FoundInput: true, Sig: "delivery"})
+				break
+			}
 		}
 	}
 	st.Set("evaluations", evals)
